@@ -319,6 +319,8 @@ def diff_prec(x, y):
 def bin2float(dtype, b):
     if b == "0":
         return dtype(0)
+    elif b == "-0":
+        return -dtype(0)
     elif b == "-inf":
         return -dtype(numpy.inf)
     elif b == "inf":
@@ -383,6 +385,8 @@ def float2bin(f):
         return bin(x.view(uint))[2:]
 
     digits = get_digits(f)
+    if f == 0 and numpy.signbit(f):
+        return "-0"
     if f >= 0:
         sign = ""
         digits = "0" * (total_bits - len(digits)) + digits
